@@ -117,11 +117,11 @@ static int vg_out(FILE *stream, const char *fmt, unsigned nargs, vg_arg_t a0, vg
 			continue;
 		}
 		while (fmt[i] == '-' || fmt[i] == '0' || fmt[i] == ' ' || fmt[i] == '+' || fmt[i] == '#') i++;
-		__CPROVER_assert(fmt[i] != '*', "sink stub: '*' width not used by the tool");
+		__CPROVER_assert(fmt[i] != '*', "[stub-limit] sink stub: '*' width not used by the tool");
 		while (fmt[i] >= '0' && fmt[i] <= '9') i++;
 		if (fmt[i] == '.') {
 			i++;
-			__CPROVER_assert(fmt[i] != '*', "sink stub: '*' precision not used by the tool");
+			__CPROVER_assert(fmt[i] != '*', "[stub-limit] sink stub: '*' precision not used by the tool");
 			while (fmt[i] >= '0' && fmt[i] <= '9') i++;
 		}
 		while (fmt[i] == 'l' || fmt[i] == 'h' || fmt[i] == 'z') i++;
@@ -153,11 +153,11 @@ static int vg_out(FILE *stream, const char *fmt, unsigned nargs, vg_arg_t a0, vg
 			__CPROVER_assume(w >= 1 && w <= 400);
 			n += w;
 		} else {
-			__CPROVER_assert(0, "sink stub: conversion not modelled (extend vg_print.h)");
+			__CPROVER_assert(0, "[stub-limit] sink stub: conversion not modelled (extend vg_print.h)");
 		}
 		a++;
 	}
-	__CPROVER_assert(a == nargs, "sink stub: every argument is consumed by a conversion");
+	__CPROVER_assert(a == nargs, "[stub-limit] sink stub: every argument is consumed by a conversion");
 	vg_sunk++;
 	return n;
 }
